@@ -26,8 +26,21 @@ BUILD = os.path.join(VERIF, ".build")
 QDIR = os.path.join(BUILD, "mir2smt", "q")
 NATIVE_DIR = os.path.join(VERIF, "engines", "mir2smt", "native")
 NATIVE_TARGET = os.path.join(BUILD, "mir2smt-native")
+_ALT = os.environ.get("VERIF_REPO")
+if _ALT:
+    # development aid (see engines/mir2smt/mir2smt.py): build the native evaluator from a copy whose path
+    # dependency points at the other checkout, and keep its evidence out of /verif/evidence
+    import shutil as _sh
+    _d = os.path.join(BUILD, "alt-c20", "native")
+    if os.path.exists(_d):
+        _sh.rmtree(_d)
+    _sh.copytree(NATIVE_DIR, _d, ignore=_sh.ignore_patterns("target"))
+    _t = open(os.path.join(_d, "Cargo.toml")).read().replace('"/repo/', '"%s/' % _ALT.rstrip("/"))
+    open(os.path.join(_d, "Cargo.toml"), "w").write(_t)
+    NATIVE_DIR = _d
+    NATIVE_TARGET = os.path.join(BUILD, "alt-c20", "target")
 NATIVE_BIN = os.path.join(NATIVE_TARGET, "debug", "c20-native")
-EVID = os.path.join(VERIF, "evidence")
+EVID = os.path.join(BUILD, "alt-evidence") if os.environ.get("VERIF_REPO") else os.path.join(VERIF, "evidence")
 JOBS = 6
 
 KNOWN_ROLE = "negate_i64_min"
